@@ -178,12 +178,29 @@ int write_srec(Memory *memory, FILE *out, int srec_size)
 
   if (memory->entry_point != 0xffffffff)
   {
-    int checksum = 3 + ((memory->entry_point >> 8) & 0xff) +
-                        (memory->entry_point & 0xff);
+    // Termination record: S9, S8 or S7 depending on the address width.
+    const uint32_t entry_point = memory->entry_point;
+    int checksum;
 
-    checksum = (checksum & 0xff) ^ 0xff;
-
-    fprintf(out, "S903%04x%02x\n", memory->entry_point, checksum);
+    if (entry_point <= 0xffff)
+    {
+      checksum = 3 + ((entry_point >> 8) & 0xff) + (entry_point & 0xff);
+      fprintf(out, "S903%04X%02X\n", entry_point, (checksum & 0xff) ^ 0xff);
+    }
+      else
+    if (entry_point <= 0xffffff)
+    {
+      checksum = 4 + ((entry_point >> 16) & 0xff) +
+                     ((entry_point >> 8) & 0xff) + (entry_point & 0xff);
+      fprintf(out, "S804%06X%02X\n", entry_point, (checksum & 0xff) ^ 0xff);
+    }
+      else
+    {
+      checksum = 5 + ((entry_point >> 24) & 0xff) +
+                     ((entry_point >> 16) & 0xff) +
+                     ((entry_point >> 8) & 0xff) + (entry_point & 0xff);
+      fprintf(out, "S705%08X%02X\n", entry_point, (checksum & 0xff) ^ 0xff);
+    }
   }
 
   return 0;
